@@ -12,7 +12,7 @@ FEATURES = [{'rereg'}, {'rereg', 'gen'}, {'rereg', 'rec'}, {'gen'}, set(), {'rer
 
 
 def run(tier, seed):
-    return e1common.run_property(PROP, MODULE, THEOREMS, tier, seed, 150, 5000, FEATURES, 'mono', ticks=(0, 1, 7), extra_cases=[e1common.FIXED_REREG])
+    return e1common.run_property(PROP, MODULE, THEOREMS, tier, seed, 150, 20000, FEATURES, 'mono', ticks=(0, 1, 7), extra_cases=[e1common.FIXED_REREG])
 
 
 def replay(path):
